@@ -58,26 +58,19 @@ pub struct TcpConnectionContext {
 }
 
 impl TcpConnectionContext {
+    /// `audit_entry` is the result of `get_audit_entry` for this connection; the listener looks it up (and consumes it)
+    /// in accept order, before the per-connection task is spawned.
     pub async fn new(
         id: u128,
         client_addr: SocketAddr,
-        redirector_shared_state: RedirectorSharedState,
+        audit_entry: Result<AuditEntry>,
         proxy_server_shared_state: ProxyServerSharedState,
-        #[cfg(windows)] raw_socket_id: usize, // windows only, it is the raw socket id, used to get audit entry from socket stream
     ) -> Self {
         let client_source_ip = client_addr.ip();
         let client_source_port = client_addr.port();
         let mut logger = ConnectionLogger::new(id, 0);
 
-        let (claims, destination_ip, destination_port, sender) = match Self::get_audit_entry(
-            &client_addr,
-            &redirector_shared_state,
-            &mut logger,
-            #[cfg(windows)]
-            raw_socket_id,
-        )
-        .await
-        {
+        let (claims, destination_ip, destination_port, sender) = match audit_entry {
             Ok(audit_entry) => {
                 let claims = match Claims::from_audit_entry(
                     &audit_entry,
@@ -142,7 +135,7 @@ impl TcpConnectionContext {
         }
     }
 
-    async fn get_audit_entry(
+    pub async fn get_audit_entry(
         client_addr: &SocketAddr,
         redirector_shared_state: &RedirectorSharedState,
         logger: &mut ConnectionLogger,
